@@ -1,4 +1,4 @@
-import Proofs.Lemmas.HeapRun
+import Proofs.Lemmas.HeapSpecLocal
 /-!
 # C06 — arrays are values: writes through a copy never show through the original
 
@@ -93,6 +93,24 @@ theorem C06_write_invisible (nv : Nat) (ops : List Op) (hf : FlatWrites ops) (w 
     rw [this]
     obtain ⟨h1, h2, _⟩ := spec_write_prop (Spec.Val.run nv ops) w x p hw
     exact ⟨h1, h2⟩
+
+/-- **The reference semantics has the property at full strength.**  In `Spec.Val` a
+mutating statement through a place of *any* depth (`$x[i][j][] = …`, `unset($o->p[k][l])`,
+`$x[i]->push(…)`) changes the name the place is rooted in and nothing else — so the only
+gap between the implementation and the property is the refinement gap closed, for
+flat writes, by `C06_value_semantics_partial`. -/
+theorem C06_spec_write_local (s : Spec.Val.St) (w : Op) (b : Place) (hw : w.target = some b) :
+    match b.root with
+    | .var x =>
+      (Spec.Val.step s w).objs = s.objs ∧
+      ∀ y, s.names[y]? ≠ s.names[x]? → (Spec.Val.step s w).varVal? y = s.varVal? y
+    | .prop x p =>
+      (∀ y, (Spec.Val.step s w).varVal? y = s.varVal? y) ∧
+      ∀ h p', (s.varObj? x ≠ some h ∨ p' ≠ p) → (Spec.Val.step s w).propVal? h p' = s.propVal? h p'
+    | .idx _ _ => True := by
+  rcases spec_step_target s w b hw with h | ⟨g, h⟩
+  · rw [h]; cases b.root <;> simp
+  · exact spec_modify_local s _ b _ h
 
 /-- **`clone` yields an independent object.**  After any flat program in which `$y`
 holds the (live) object `h`: execute `$x = clone $y;` and then any mutating statement
@@ -245,6 +263,9 @@ example : ∀ op ∈ [Op.meth (.var 1) .pop], op.isRef = false := by decide
 /- the reference really shares: a write through `$v1` is read through `$v0` -/
 example : obs (abs (run .fixed 2 [.setVar 0 (.lit lit123), .ref 1 0, .setIdx (.var 1) (some (.int 0)) (.int 9)])) 0 = [9, 2, 3] := by
   decide
+/- `C06_spec_write_local` at depth 2: the spec leaves `$v0` alone where the implementation does not -/
+example : (Op.setIdx (.idx (.var 1) (.int 0)) (some (.int 0)) (.int 9)).target = some (.idx (.var 1) (.int 0)) ∧
+    (Place.idx (.var 1) (.int 0)).root = .var 1 := ⟨rfl, rfl⟩
 /- `FlatWrites` excludes the nested witness -/
 example : ¬ FlatWrites nestedWitness := by decide
 
